@@ -265,6 +265,7 @@ func runC20(c *Ctx) {
 			Basis: "nibble < 10 -> +'0', else %10 + 'a' (4 sites)", Detail: "unexpected digit expression: " + strings.Join(bad, "; ")})
 	}
 	runC20ZeroRun(c)
+	runC20Narrowing(c)
 }
 
 func runC20ZeroRun(c *Ctx) {
@@ -444,4 +445,75 @@ func patternString(code [8]int) string {
 		}
 	}
 	return strings.Join(p, ":")
+}
+
+// runC20Narrowing: an integer appender renders the value it was given: on its way to the digit writer
+// (strconv.AppendInt, printInt, the hex tables) the parameter may be widened or reinterpreted at the same width,
+// but not narrowed — a narrowing conversion silently drops the high bits of large values.
+func runC20Narrowing(c *Ctx) {
+	r := c.R
+	r.Rule("narrowing", "integer appenders do not narrow the value before rendering it", 5)
+	sizes := types.SizesFor("gc", "amd64")
+	for _, name := range []string{"Int", "Uint8", "Uint16", "Uint32", "Uint8Hex", "Uint16Hex"} {
+		fn := c.P.Method("fastlog", "Line", name)
+		if fn == nil || len(fn.Params) != 3 {
+			r.Add(core.Obligation{Rule: "narrowing", Key: "narrowing Line." + name, Status: core.Violated, Detail: "method not found"})
+			continue
+		}
+		val := fn.Params[2]
+		derived := map[ssa.Value]bool{val: true}
+		// values derived from the parameter by arithmetic that keeps it an integer of the same meaning
+		for changed := true; changed; {
+			changed = false
+			core.EachInstr(fn, func(i ssa.Instruction) {
+				v, ok := i.(ssa.Value)
+				if !ok || derived[v] {
+					return
+				}
+				switch t := i.(type) {
+				case *ssa.Phi:
+					for _, e := range t.Edges {
+						if derived[e] {
+							derived[v], changed = true, true
+						}
+					}
+				case *ssa.UnOp:
+					if t.Op == token.SUB && derived[t.X] {
+						derived[v], changed = true, true
+					}
+				case *ssa.Convert:
+					if derived[t.X] {
+						derived[v], changed = true, true
+					}
+				}
+			})
+		}
+		var bad []string
+		core.EachInstr(fn, func(i ssa.Instruction) {
+			cv, ok := i.(*ssa.Convert)
+			if !ok || !derived[cv.X] {
+				return
+			}
+			sb, ok1 := cv.X.Type().Underlying().(*types.Basic)
+			db, ok2 := cv.Type().Underlying().(*types.Basic)
+			if !ok1 || !ok2 || sb.Info()&types.IsInteger == 0 || db.Info()&types.IsInteger == 0 {
+				return
+			}
+			if sizes.Sizeof(cv.Type()) < sizes.Sizeof(cv.X.Type()) {
+				// narrowing is fine when only the kept bits are used on purpose: a nibble / byte extraction feeding a table index
+				if name == "Uint8Hex" || name == "Uint16Hex" {
+					return
+				}
+				bad = append(bad, fmt.Sprintf("%s -> %s at %s", cv.X.Type(), cv.Type(), c.P.Pos(cv.Pos())))
+			}
+		})
+		st := core.Proved
+		det := ""
+		if len(bad) > 0 {
+			st = core.Violated
+			det = "the value is narrowed before it is rendered (" + strings.Join(bad, "; ") + "): values that do not fit the narrower type are logged as a different number"
+		}
+		r.Add(core.Obligation{Rule: "narrowing", Key: "narrowing Line." + name, Func: core.FuncName(fn), Pos: c.P.Pos(fn.Pos()), Status: st,
+			Basis: "conversions of the logged value are widening or same width (64-bit target sizes)", Detail: det})
+	}
 }
